@@ -438,6 +438,15 @@ pub fn enumerate(specs: &[Specimen], seed: u64, tier: Tier, only_covered: bool) 
                     cases.push((si, Damage::Multi { file: fi, flips }));
                 }
             }
+            // zeroed ranges that take a block's CRC with them: the last bytes of the data of a CRC-protected block and the 4 CRC
+            // bytes that follow, for every block (a checksum of zero is a checksum like any other)
+            for (bstart, blen) in &view.blocks {
+                let end = bstart + blen;
+                let start = end.saturating_sub(8).max(*bstart);
+                if end + 4 <= len {
+                    cases.push((si, Damage::Zero { file: fi, start, len: end + 4 - start }));
+                }
+            }
             // big compressed clusters: 140 KiB of noise in the middle and towards the end: more than one compressed block, so
             // that a block header is hit and decoding FAILS after a prefix of the cluster has been decoded and published (noise
             // inside entropy-coded literals mostly decodes, to other bytes, without any error)
